@@ -218,7 +218,7 @@ func writeManifest(verif string) {
 			"level_note": "NOT decided: " + strings.Join(p.NotDec, "; ") + ". Trusted: go/packages, go/types, go/ssa (x/tools v0.29.0), the checker's dominance/reachability code; " + strings.Join(p.Assume, "; "),
 		})
 	}
-	var na []map[string]string
+	na := []map[string]string{}
 	b, _ := os.ReadFile(filepath.Join(verif, "properties.jsonl"))
 	for _, line := range strings.Split(string(b), "\n") {
 		var pr struct {
